@@ -195,6 +195,29 @@ fn main() {
             }
             0
         }
+        "strace" => {
+            // replay a stream scenario case (C11/C13) and print every run
+            let text = std::fs::read_to_string(&args[2]).expect("read");
+            let v: serde_json::Value = serde_json::from_str(&text).expect("json");
+            let case: props::streams::StreamCase = serde_json::from_value(v["case"].clone()).expect("case");
+            let (sc, log) = props::streams::run_for_trace(&case);
+            println!("{}", sc.script.text);
+            for (i, p) in sc.script.peers.iter().enumerate() {
+                println!("peer {} = {} {}", i, p.name, p.id);
+            }
+            println!("designated {} folder {}", sc.designated, sc.folder);
+            for r in &log {
+                println!("--- step {} {:?} on {} results {:?}", r.step, r.action, sc.script.peers[r.peer].name, r.results);
+                for (n, b) in [("prev", &r.prev), ("cur ", &r.cur), ("new ", &r.out.data)] {
+                    match aquaverif::core::decode_data(b) {
+                        Ok(d) => println!("  {} lcid {} : {}", n, d.data.last_call_request_id, aquaverif::model::show::trace(&d.data)),
+                        Err(e) => println!("  {} undecodable {}", n, e),
+                    }
+                }
+                println!("  => code {} {} next {:?} reqs {:?}", r.out.ret_code, r.out.error_message, r.out.next_peers.iter().map(|p| sc.script.peer_by_id(p).map(|k| k.name.clone()).unwrap_or(p.clone())).collect::<Vec<_>>(), r.out.requests.as_ref().map(|m| m.iter().map(|(k, q)| format!("{}:{}{:?}", k, q.function, q.args)).collect::<Vec<_>>()));
+            }
+            0
+        }
         "trace" => {
             // replay a history case and print every run
             let text = std::fs::read_to_string(&args[3]).expect("read");
